@@ -131,6 +131,8 @@ pub enum Top {
     LinkOutside,
     /// real directory, but `a.toml` is a symlink to a canary file
     TomlLink,
+    /// real directory, but `a.toml` is a dangling symlink to a path beside the layers directory
+    TomlDangling,
 }
 
 #[derive(Clone, Debug, Serialize, Deserialize)]
@@ -143,6 +145,9 @@ pub struct Case {
     /// the layer is the only entry of the layers directory (no siblings, no store.toml)
     #[serde(default)]
     lonely: bool,
+    /// the operations name the layer "a/" instead of "a"
+    #[serde(default)]
+    name_slash: bool,
 }
 
 fn default_layers_mode() -> u32 {
@@ -177,7 +182,7 @@ fn world(case: &Case, root: &Path) -> Snapshot {
         s.insert("layers/a.sbom.cdx.json", Node::file(b"{}"));
     }
     match case.top {
-        Top::Real | Top::TomlLink => {
+        Top::Real | Top::TomlLink | Top::TomlDangling => {
             s.insert("layers/a", Node::dir());
             put_tree(&mut s, "layers/a", &case.tree, root, 0);
         }
@@ -192,6 +197,8 @@ fn world(case: &Case, root: &Path) -> Snapshot {
     }
     if case.top == Top::TomlLink {
         s.insert("layers/a.toml", Node::Link { target: root.join("outside/file").as_os_str().as_bytes().to_vec() });
+    } else if case.top == Top::TomlDangling {
+        s.insert("layers/a.toml", Node::Link { target: root.join("outside/not-there.toml").as_os_str().as_bytes().to_vec() });
     } else {
         s.insert("layers/a.toml", Node::file(b"[types]\ncache = true\nlaunch = true\n\n[metadata]\nv = 1\n"));
     }
@@ -243,7 +250,11 @@ fn context_for(root: &Path) -> BuildContext<VB> {
 
 pub fn run_op(op: &str, root: &Path) -> Result<(), String> {
     let ctx = context_for(root);
-    let name: LayerName = "a".parse().unwrap();
+    // an operation name ending in '/' addresses the layer as "a/" (a valid LayerName that denotes the same directory)
+    let (op, name): (&str, LayerName) = match op.strip_suffix('/') {
+        Some(o) => (o, "a/".parse().unwrap()),
+        None => (op, "a".parse().unwrap()),
+    };
     match op {
         "uncached" => ctx.uncached_layer(&name, UncachedLayerDefinition { build: true, launch: false }).map(|_| ()).map_err(|e| format!("{e:?}")),
         "cached-delete" => ctx
@@ -333,7 +344,7 @@ fn judge(case: &Case, op: &str, uid: u32, w: &mut Worker) -> (Vec<Viol>, String)
         chown_all(&root, uid);
         // the scratch root's parent must be traversable
     }
-    let result = w.call(op, &root);
+    let result = w.call(&format!("{op}{}", if case.name_slash { "/" } else { "" }), &root);
     let after = Snapshot::take(&root).expect("snapshot");
     let mut v = Vec::new();
     let replay = json!({"case": case, "op": op, "uid": uid});
@@ -351,9 +362,10 @@ fn judge(case: &Case, op: &str, uid: u32, w: &mut Worker) -> (Vec<Viol>, String)
             Top::LinkOutside => "layer-path-is-symlink-outside",
             Top::LinkInside => "layer-path-is-symlink-inside",
             Top::TomlLink => "toml-is-symlink",
+            Top::TomlDangling => "toml-is-dangling-symlink",
             Top::Real => "nested",
         };
-        v.push((format!("escape:{what_top}"), format!("{op} as {who} on {:?} tree {:?} (result {:?}) changed things outside the layer: {:?}", case.top, case.tree, result.as_ref().map_err(|e| e.chars().take(120).collect::<String>()), d), replay.clone()));
+        v.push((format!("escape:{what_top}{}", if case.name_slash { ":name-with-trailing-slash" } else { "" }), format!("{op} as {who} on {:?} tree {:?} (result {:?}) changed things outside the layer: {:?}", case.top, case.tree, result.as_ref().map_err(|e| e.chars().take(120).collect::<String>()), d), replay.clone()));
     }
     if result.is_ok() {
         // all of the layer's own entries are gone and a/ is a fresh empty real directory
@@ -390,21 +402,26 @@ pub fn run(args: &Args) {
     let budget = if args.thorough() { 4 } else { 3 };
     let trees = gen_lists(budget, 1);
     for t in &trees {
-        cases.push(Case { top: Top::Real, tree: t.clone(), layers_mode: 0o755, lonely: false });
+        cases.push(Case { top: Top::Real, tree: t.clone(), layers_mode: 0o755, lonely: false, name_slash: false });
     }
     // top-level variants with every tree of <= 2 nodes
     for t in gen_lists(2, 1) {
-        cases.push(Case { top: Top::LinkInside, tree: t.clone(), layers_mode: 0o755, lonely: false });
-        cases.push(Case { top: Top::TomlLink, tree: t.clone(), layers_mode: 0o755, lonely: false });
+        cases.push(Case { top: Top::LinkInside, tree: t.clone(), layers_mode: 0o755, lonely: false, name_slash: false });
+        cases.push(Case { top: Top::TomlLink, tree: t.clone(), layers_mode: 0o755, lonely: false, name_slash: false });
         // a read-only layers directory (root can still delete in it; its mode is outside the layer)
-        cases.push(Case { top: Top::Real, tree: t.clone(), layers_mode: 0o555, lonely: false });
+        cases.push(Case { top: Top::Real, tree: t.clone(), layers_mode: 0o555, lonely: false, name_slash: false });
     }
-    cases.push(Case { top: Top::LinkOutside, tree: vec![], layers_mode: 0o755, lonely: false });
+    cases.push(Case { top: Top::LinkOutside, tree: vec![], layers_mode: 0o755, lonely: false, name_slash: false });
     // the layer as the only entry of the layers directory (mode 0750: a re-created directory would differ)
     for t in gen_lists(1, 1) {
-        cases.push(Case { top: Top::Real, tree: t.clone(), layers_mode: 0o750, lonely: true });
+        cases.push(Case { top: Top::Real, tree: t.clone(), layers_mode: 0o750, lonely: true, name_slash: false });
     }
-    cases.push(Case { top: Top::LinkOutside, tree: vec![], layers_mode: 0o555, lonely: false });
+    cases.push(Case { top: Top::LinkOutside, tree: vec![], layers_mode: 0o555, lonely: false, name_slash: false });
+    // the layer named with a trailing slash ("a/" is a valid LayerName for the same directory)
+    cases.push(Case { top: Top::LinkOutside, tree: vec![], layers_mode: 0o755, lonely: false, name_slash: true });
+    for t in gen_lists(2, 1) {
+        cases.push(Case { top: Top::TomlDangling, tree: t.clone(), layers_mode: 0o755, lonely: false, name_slash: false });
+    }
     // self-test: unprivileged workers must really be unprivileged
     {
         let sc = Scratch::new("c11self");
@@ -464,7 +481,7 @@ pub fn run(args: &Args) {
     rep.cov("trees", cases.len() as u64);
     rep.cov("distinct_nontrivial", nontrivial);
     rep.cov("distinct_outcomes", json!(outcomes));
-    rep.cov("rule", "every multiset tree of <= N nodes over {file(0444), dir x modes {755,555,666,000} with children, FIFO, UNIX socket, 10 symlink kinds (inside file/dir, sibling layer dir/file, outside dir/file absolute and relative, dangling, self loop, pair loop)}, two levels, <= 3 entries per directory; plus layer path / a.toml being symlinks and a read-only (0555) layers directory (each with every <=2-node tree), and the layer as the only entry of a 0750 layers directory; each x 3 operations (uncached_layer over existing, cached_layer Delete, handle_layer Recreate) x {root, uid 65534 owner}; non-trivial = trees containing a directory or symlink, or a top-level variant");
+    rep.cov("rule", "every multiset tree of <= N nodes over {file(0444), dir x modes {755,555,666,000} with children, FIFO, UNIX socket, 10 symlink kinds (inside file/dir, sibling layer dir/file, outside dir/file absolute and relative, dangling, self loop, pair loop)}, two levels, <= 3 entries per directory; plus layer path / a.toml being symlinks (a.toml also dangling), the layer addressed as `a/`, and a read-only (0555) layers directory (each with every <=2-node tree), and the layer as the only entry of a 0750 layers directory; each x 3 operations (uncached_layer over existing, cached_layer Delete, handle_layer Recreate) x {root, uid 65534 owner}; non-trivial = trees containing a directory or symlink, or a top-level variant");
     rep.cov("bound", json!({"max_nodes": budget, "levels": 2, "ops": OPS, "uids": [0, NOBODY]}));
     rep.cov("exhaustive", true);
     rep.sample(json!(cases[cases.len() / 2]));
